@@ -1,4 +1,11 @@
-import Plonk.Model.FFT
+/-
+  C19 — FFT and polynomial kernels equal their mathematical definitions.
+  Property theorems: `Plonk/Props/C19Fft.lean` (transforms, thread independence, iterative =
+  recursive = DFT) and `Plonk/Props/C19Poly.lean` (polynomial arithmetic, evaluation, Ruffini,
+  batch inversion, closed forms); this file adds the constants they rest on.
+-/
+import Plonk.Props.C19Fft
+import Plonk.Props.C19Poly
 namespace Plonk.Props.C19
 open Plonk
 /-- `ROOT_OF_UNITY` is `7^((r−1)/2^32)` -/
